@@ -343,7 +343,7 @@ def run(chk, tier):
     enum_inputs, nenum = f_enum.result()
     stats["inputs"]["enum_strings_x_variants"] = nenum
     stats["inputs"]["tlc_wall_enum_s"] = round(time.time() - t, 1)
-    enum_inputs = pick("enum", enum_inputs, 50)
+    enum_inputs = pick("enum", enum_inputs, 200)
     go("enum", enum_inputs)
     go("dirs", pick("dirs", f_dirs.result(), 20))
     go("stress", pick("stress", f_stress.result(), 2))
